@@ -21,12 +21,12 @@ const (
 )
 
 type SV struct {
-	Term string
-	K    svKind
-	T    types.Type // for svGo
-	A    *Addr
-	Nil  bool // untyped nil literal
-	Lit  string
+	Term  string
+	K     svKind
+	T     types.Type // for svGo
+	A     *Addr
+	Nil   bool // untyped nil literal
+	Lit   string
 	IsLit bool
 }
 
